@@ -461,6 +461,72 @@ type world struct {
 	hbs            []*hbT    // (Heartbeats) the heartbeats sent so far
 	noSweep        bool      // (Heartbeats) a connection closed during a heartbeat event without the model's leave: its streams stay in flight in the model
 	kinds          bool      // the connection-event KIND is part of the alphabet (see connection event kinds below); set by the C09 search only
+	// runtime threshold changes (drivers implementing RuntimeLimits, C09 search only; see "runtime threshold changes" below)
+	cc         v2.Cluster // the cluster configuration the world was built from
+	maxConn    uint32     // the model's max_connections: cfg.MaxConn until a limit/conn event changes it
+	limits     int        // how many limit events one history may hold (0: the event is not in the alphabet)
+	limitsUsed int
+	limitVals  []uint32
+}
+
+// ---------------------------------------------------------------------------
+// runtime threshold changes
+//
+// A cluster update (CDS, AddOrUpdateClusterAndHost) with other circuit-breaker thresholds does not
+// replace the resource manager the existing hosts and pools look at: the cluster manager's update
+// handler cluster.UpdateClusterResourceManagerHandler(old cluster, new cluster) copies the new maxima
+// INTO the old resource manager (and hands that object to the new cluster info). A pool therefore
+// meets a max_connections that is lower (or higher) than the one under which it built its state.
+//
+//	limit/conn=<n>   the cluster of the history's host is updated with max_connections=n (0 = unlimited),
+//	                 max_requests unchanged: a real cluster (cluster.NewCluster) with the new thresholds
+//	                 is passed to the real handler together with the cluster of the world's ClusterInfo
+//
+// Reference model: from the event on the limit is n - the I4 capacity oracle asks for n NewStreams from
+// a state without leases (2 if unlimited). Nothing else changes: I1-I3 and I5 say nothing about
+// limits, so whatever a pool does when it holds more connections than the new limit allows (refuse,
+// close idle connections, keep them) every open connection is still exactly one of leased / idle, the
+// counters equal the truth, and once nothing is in flight the capacity of the NEW limit is available.
+// Whether a single refusal is justified is not compared here (C10's admission oracle).
+//
+// RuntimeLimits is implemented by a driver whose C09 search has the event in its alphabet.
+type RuntimeLimits interface {
+	// LimitEvents returns how many limit events one history may hold (0 = none) and the values of n.
+	LimitEvents() (perHistory int, values []uint32)
+}
+
+// clusterOf is the types.Cluster the update handler is given as the OLD cluster: the cluster whose
+// snapshot carries the world's ClusterInfo (the handler reads nothing else of it).
+type clusterOf struct{ info types.ClusterInfo }
+type snapshotOf struct{ info types.ClusterInfo }
+
+func (c clusterOf) Snapshot() types.ClusterSnapshot               { return snapshotOf{c.info} }
+func (c clusterOf) UpdateHosts(types.HostSet)                      {}
+func (c clusterOf) AddHealthCheckCallbacks(cb types.HealthCheckCb) {}
+func (c clusterOf) StopHealthChecking()                            {}
+
+func (s snapshotOf) HostSet() types.HostSet                                { return nil }
+func (s snapshotOf) ClusterInfo() types.ClusterInfo                        { return s.info }
+func (s snapshotOf) LoadBalancer() types.LoadBalancer                      { return nil }
+func (s snapshotOf) IsExistsHosts(metadata api.MetadataMatchCriteria) bool { return false }
+func (s snapshotOf) HostNum(metadata api.MetadataMatchCriteria) int        { return 0 }
+
+func (w *world) setLimit(ev string) string {
+	n, err := strconv.Atoi(strings.TrimPrefix(ev, "limit/conn="))
+	if err != nil || n < 0 {
+		w.harness("bad event %q", ev)
+		return "bad"
+	}
+	cc := w.cc
+	cc.CirBreThresholds = v2.CircuitBreakers{Thresholds: []v2.Thresholds{{MaxConnections: uint32(n), MaxRequests: w.cfg.MaxReq}}}
+	cluster.UpdateClusterResourceManagerHandler(clusterOf{w.host.ClusterInfo()}, cluster.NewCluster(cc))
+	if got := w.host.ClusterInfo().ResourceManager().Connections().Max(); got != uint64(n) || w.host.ClusterInfo().ResourceManager() != w.rm {
+		w.harness("event %q: the resource manager of the host's cluster shows max_connections=%d afterwards (same object: %v)", ev, got, w.host.ClusterInfo().ResourceManager() == w.rm)
+		return "bad"
+	}
+	w.maxConn = uint32(n)
+	w.limitsUsed++
+	return "set"
 }
 
 // ---------------------------------------------------------------------------
@@ -568,7 +634,7 @@ func newWorld(d Driver, cfg Cfg) *world {
 		mlog.StartLogger.Toggle(true)
 	})
 	vfake.Reset()
-	w := &world{d: d, cfg: cfg}
+	w := &world{d: d, cfg: cfg, maxConn: cfg.MaxConn}
 	cc := v2.Cluster{Name: "c09cluster", ClusterType: v2.SIMPLE_CLUSTER, LbType: v2.LB_ROUNDROBIN}
 	// thresholds are always stated, also when both are 0 (= unlimited)
 	cc.CirBreThresholds = v2.CircuitBreakers{Thresholds: []v2.Thresholds{{MaxConnections: cfg.MaxConn, MaxRequests: cfg.MaxReq}}}
@@ -577,6 +643,7 @@ func newWorld(d Driver, cfg Cfg) *world {
 		// armed) must not fire on the wall clock, however long the process is stalled
 		cc.KeepAlive.Timeout = 24 * time.Hour
 	}
+	w.cc = cc
 	info := cluster.NewClusterInfo(cc)
 	w.host = cluster.NewSimpleHost(v2.Host{HostConfig: v2.HostConfig{Address: "127.0.0.1:21909", Weight: 1}}, info)
 	w.rm = info.ResourceManager()
@@ -731,6 +798,9 @@ func (w *world) apply(ev string) (outcome string) {
 			return nil
 		}
 		return w.conns[arg]
+	}
+	if strings.HasPrefix(name, "limit/conn=") {
+		return w.setLimit(name)
 	}
 	switch name {
 	case "new", "new/cf", "new/ct", "new/cf1", "new/wto", "new/werr":
@@ -1500,6 +1570,13 @@ func (w *world) enabled() []string {
 		}
 	}
 	out = append(out, "shutdown", "close")
+	if w.limitsUsed < w.limits {
+		for _, n := range w.limitVals {
+			if n != w.maxConn {
+				out = append(out, fmt.Sprintf("limit/conn=%d", n))
+			}
+		}
+	}
 	if w.cfg.MaxReq > 0 {
 		if w.ext == 0 {
 			out = append(out, "ext+")
@@ -1805,6 +1882,10 @@ func (w *world) canon() string {
 	now := w.statsNow()
 	fmt.Fprintf(&sb, "|cur=%d|stats=%d,%d,%d,%d|ext=%d|shutdown=%v|poisoned=%v|%s", w.rm.Requests().Cur(),
 		now[0]-w.base[0], now[1]-w.base[1], now[2]-w.base[2], now[3]-w.base[3], w.ext, w.shutdown, w.poisoned, b.Extra)
+	if w.limits > 0 {
+		// the limit in force (the model's and the resource manager's) and the limit events still allowed
+		fmt.Fprintf(&sb, "|maxconn=%d/%d|limits=%d", w.maxConn, w.rm.Connections().Max(), w.limits-w.limitsUsed)
+	}
 	return sb.String()
 }
 
@@ -1821,6 +1902,7 @@ type result struct {
 	shutdown bool
 	poisoned bool
 	dirty    bool // the final state has standing invariant violations
+	maxConn  uint32 // the max_connections in force in the final state
 }
 
 // eventClass names the class of an event for finding keys and outcome statistics. The connect
@@ -1864,6 +1946,9 @@ func runHistory(d Driver, cfg Cfg, hist []string, probe int) (res result) {
 	}()
 	w = newWorld(d, cfg)
 	w.kinds = os.Getenv("VERIF_C09_KINDS") != "0" // (development switch: the alphabet without the connection event kinds)
+	if rl, ok := d.(RuntimeLimits); ok && os.Getenv("VERIF_C09_LIMITS") != "0" { // (development switch)
+		w.limits, w.limitVals = rl.LimitEvents()
+	}
 	w.syncConns()
 	var pre map[string]sv
 	for i, ev := range hist {
@@ -1915,6 +2000,7 @@ func runHistory(d Driver, cfg Cfg, hist []string, probe int) (res result) {
 	res.leases = len(w.inflight())
 	res.shutdown = w.shutdown
 	res.poisoned = w.poisoned
+	res.maxConn = w.maxConn
 	// I4 capacity probe
 	if probe > 0 && res.leases == 0 && !w.shutdown && !w.poisoned {
 		for k := 1; k <= probe; k++ {
@@ -1930,7 +2016,7 @@ func runHistory(d Driver, cfg Cfg, hist []string, probe int) (res result) {
 				}
 				res.findings = append(res.findings, finding{
 					fmt.Sprintf("pool=%s I4 capacity not available again: NewStream refused with %s in a state without leases (%s)", d.Name(), out, why),
-					fmt.Sprintf("after the history no stream is in flight, yet NewStream number %d of %d (max_connections=%d, max_requests=%d, %d slot(s) held by other pools) failed with %q", k, probe, cfg.MaxConn, cfg.MaxReq, w.ext, out)})
+					fmt.Sprintf("after the history no stream is in flight, yet NewStream number %d of %d (max_connections=%d, max_requests=%d, %d slot(s) held by other pools) failed with %q", k, probe, res.maxConn, cfg.MaxReq, w.ext, out)})
 				break
 			}
 		}
@@ -1940,7 +2026,7 @@ func runHistory(d Driver, cfg Cfg, hist []string, probe int) (res result) {
 
 // probeFor returns the number of NewStreams that must succeed from a state without leases.
 func probeFor(cfg Cfg, r result) int {
-	k := int(cfg.MaxConn)
+	k := int(r.maxConn) // (the limit in force: cfg.MaxConn unless a limit/conn event changed it)
 	if k == 0 {
 		k = 2
 	}
@@ -2103,7 +2189,7 @@ search:
 	b, _ := json.Marshal(cfgs)
 	p.End(complete,
 		fmt.Sprintf("pool %s: every history of <= %d events from {NewStream (connect ok / fails / times out), reply(s), local reset(s), remote close(c), local close(c), go-away, %s%s%spool Shutdown, pool Close, request slot taken/released by another pool of the cluster} under thresholds %s, successors expanded from every distinct canonical state", d.Name(), depth,
-			map[bool]string{true: "garbage response(s), ", false: ""}[d.GarbageBytes() != nil], hbAlphabet(d), kindsAlphabet(d), b),
+			map[bool]string{true: "garbage response(s), ", false: ""}[d.GarbageBytes() != nil], hbAlphabet(d), kindsAlphabet(d)+limitsAlphabet(d), b),
 		"BFS; a state is an event history replayed on a fresh pool/host/cluster info/resource manager over fake connections; merged on the canonical form (per connection in creation order: open, in-flight streams, idle-list position and client flags, slot, taints; pool counters; Requests.Cur; active-stat deltas; model memory); distinct = distinct (cfg, canonical state); outcome = class of the last event; oracle I1-I5 evaluated in every state, new violations attributed to the last event; I4 probed from every new state without leases; not compared (statement silent): which idle connection is picked, behaviour after Shutdown (I2, I4), other stats")
 }
 
@@ -2122,6 +2208,18 @@ func kindsAlphabet(d Driver) string {
 		s += "close of the downstream connection with each of the 5 close kinds, OnReadTimeout / OnShutdown delivered to the downstream connection (no close), "
 	}
 	return s
+}
+
+func limitsAlphabet(d Driver) string {
+	rl, ok := d.(RuntimeLimits)
+	if !ok || os.Getenv("VERIF_C09_LIMITS") == "0" {
+		return ""
+	}
+	n, vals := rl.LimitEvents()
+	if n == 0 {
+		return ""
+	}
+	return fmt.Sprintf("cluster update that changes max_connections of the live resource manager to n in %v (UpdateClusterResourceManagerHandler; <= %d per history, at any position), ", vals, n)
 }
 
 func hbAlphabet(d Driver) string {
